@@ -20,7 +20,7 @@ RULE = ("schemas of depth <= 4 and width <= 6 with identifier keys whose option 
         "and mutated states: the state afterwards must equal 'supplied and not ignored options set to their normal "
         "form and marked user-defined, every other value and flag untouched'; non-trivial = >= 4 paths and >= 1 "
         "command line applied; distinct = distinct (schema, state, command line)")
-REQUIRED = ("number_fields_declared_with_the_base_class", "membership_negatives", "schema_iterations_compared", "parsed_arguments_reused_with_another_ignore_list", "parser_from_schema_method", "sections_nested_in_a_section_of_the_same_name", "mode_helper_replaces_an_earlier_field", "rejected_command_lines_applied_again", "schemas_with_names_of_schema_methods_or_odd_underscores", "schema_grown_after_enumeration", "paths_checked", "dotted_assignments_checked", "parsers_compared", "overrides_compared", "argv:empty",
+REQUIRED = ("instance_methods_looked_up_by_path", "number_fields_declared_with_the_base_class", "membership_negatives", "schema_iterations_compared", "parsed_arguments_reused_with_another_ignore_list", "parser_from_schema_method", "sections_nested_in_a_section_of_the_same_name", "mode_helper_replaces_an_earlier_field", "rejected_command_lines_applied_again", "schemas_with_names_of_schema_methods_or_odd_underscores", "schema_grown_after_enumeration", "paths_checked", "dotted_assignments_checked", "parsers_compared", "overrides_compared", "argv:empty",
             "argv:bool-on", "argv:bool-off", "argv:bool-both-switches", "argv:value", "argv:repeated", "argv:invalid", "ignore:str", "ignore:list",
             "state:mutated", "depth>=3")
 ASSUMPTIONS = ["enumeration is judged on root schemas / configurations; membership is demanded of stored fields only",
@@ -259,6 +259,17 @@ def run(case, ctx, res):
                 return None
             fam = nd["family"] if nd["kind"] == "field" else nd["kind"]
             if fam == "method":
+                # an instance method is enumerated like any field: item access gives what attribute access gives - the
+                # function bound to the configuration that holds it
+                res.count("instance_methods_looked_up_by_path")
+                try:
+                    via_item, via_attr = cfg[path], _chain(cfg, path)
+                except Exception as exc:
+                    res.viol("M-names", "config-lookup:method", "reading the instance method %r raised %r" % (path, exc))
+                    return None
+                if via_item is not via_attr or not callable(via_item):
+                    res.viol("M-names", "config-lookup:method", "cfg[%r] is %r, attribute access gives %r" % (path, via_item, via_attr))
+                    return None
                 continue
             try:
                 via_item = cfg[path]
